@@ -168,6 +168,27 @@ def ident(rng, prefix):
     return prefix + "".join(rng.choice("abcdefghxyz_0123456789") for _ in range(rng.randint(1, 6)))
 
 
+def related_ident(rng, prefix, used):
+    """a name that overlaps a name already in the object: a proper tail of it (after a '_' or anywhere), a name that
+    ends / begins with it, or one that repeats it (`min_of_min` beside `min`) - what a string table that shares
+    storage between names has to get right, in whichever order the names are entered"""
+    base = rng.choice(sorted(used)) if used else ident(rng, prefix)
+    k = rng.randrange(6)
+    if k == 0 and "_" in base.strip("_"):
+        t = base.split("_", rng.randint(1, base.count("_")))[-1]
+        return t if t and not t[0].isdigit() else prefix + t
+    if k == 1 and len(base) > 1:
+        t = base[rng.randint(1, len(base) - 1):]
+        return t if t and not t[0].isdigit() else prefix + t
+    if k == 2:
+        return base + "_" + rng.choice(["of", "x", "0"]) + "_" + base
+    if k == 3:
+        return ident(rng, prefix) + "_" + base
+    if k == 4:
+        return base + "_" + ident(rng, "")
+    return base + base
+
+
 def gen_c(rng, externs, arch=None):
     """small C translation unit: globals (data), statics (local symbols), functions, optionally extern references"""
     ng, ns, nf = rng.randint(0, 3), rng.randint(0, 2), rng.randint(1, 3)
@@ -285,7 +306,7 @@ def synth_object(rng, arch, for_exec):
     used = set()
     for i in range(nsym):
         g = {"all-global": True, "all-local": False}.get(mode, rng.random() < 0.5)
-        name = ident(rng, "s")
+        name = related_ident(rng, "s", used) if rng.random() < 0.4 else ident(rng, "s")
         if g and name in used:
             continue
         used.add(name)
